@@ -44,6 +44,8 @@ type HarnessResult struct {
 	Samples     []string
 	Truncated   bool
 	EngineErr   []string
+	FbQueries, FbDecided int
+	FbTime      time.Duration
 	Wall        time.Duration
 }
 
@@ -55,6 +57,8 @@ type Config struct {
 	MaxPaths   int
 	SolverName string
 	SolverINT  string
+	Fallbacks  []string
+	FallbackMs int
 	LogDir     string
 	Verbose    bool
 	Budget     time.Duration
@@ -92,6 +96,7 @@ func (e *Exec) resetPath(prefix []Decision) {
 	e.locCell = nil
 	e.pcDirty = false
 	e.known = map[string]bool{}
+	e.pools = map[*Value][]Value{}
 	e.roundings = nil
 	e.defCache = map[string]string{}
 	e.radixes = map[string]*radix{}
@@ -124,6 +129,9 @@ func (e *Exec) runPath(h *ssa.Function, prefix []Decision) (end string, msg stri
 					e.recordViolation("panic", "panic: "+normPanic(r.msg), r.msg)
 				}
 				end, msg = "panic", r.msg
+				if e.curInstr != nil && os.Getenv("VERIF_DEBUG") != "" {
+					fmt.Fprintf(os.Stderr, "PANIC %s at instr %q in %s%s\n", r.msg, e.curInstr.String(), e.curInstr.Parent(), e.stackStr(6))
+				}
 			case unsupportedErr:
 				end, msg = "unsupported", r.msg+" at "+e.posStr(e.curPos)+e.stackStr(4)
 			case pathStop:
@@ -244,7 +252,7 @@ func exploreHarness(p *Program, h *ssa.Function, cfg Config) *HarnessResult {
 		defer func() { sol.Close(); solI.Close() }()
 		e := &Exec{P: p, sol: sol, solBV: sol, solINT: solI, tier: cfg.Tier, maxSteps: cfg.MaxSteps,
 			reached: map[string]bool{}, asserts: map[string]int{}, bounds: map[string]int{},
-			funcsSeen: map[string]bool{}, intrUsed: map[string]bool{}, stubsUsed: map[string]bool{}, hname: h.Name()}
+			extraSolvers: map[string]*Solver{}, fallbacks: cfg.Fallbacks, fallbackMs: cfg.FallbackMs, funcsSeen: map[string]bool{}, intrUsed: map[string]bool{}, stubsUsed: map[string]bool{}, hname: h.Name()}
 		npaths := 0
 		for {
 			mu.Lock()
@@ -345,7 +353,12 @@ func exploreHarness(p *Program, h *ssa.Function, cfg Config) *HarnessResult {
 			cond.Broadcast()
 		}
 		mu.Lock()
-		for _, so := range []*Solver{sol, solI} {
+		all := []*Solver{sol, solI}
+		for _, so := range e.extraSolvers {
+			all = append(all, so)
+			defer so.Close()
+		}
+		for _, so := range all {
 			res.Queries += so.Queries
 			res.Sat += so.Sat
 			res.Unsat += so.Unsat
@@ -353,6 +366,9 @@ func exploreHarness(p *Program, h *ssa.Function, cfg Config) *HarnessResult {
 			res.SolverErr += so.Errors
 			res.SolverTime += so.Time
 		}
+		res.FbQueries += e.fbQueries
+		res.FbDecided += e.fbDecided
+		res.FbTime += e.fbTime
 		for k := range e.funcsSeen {
 			res.Funcs[k] = true
 		}
